@@ -71,7 +71,7 @@ Qed.
 
 (* class names start with an upper-case letter or a digit (what pascal_case produces; sampled) *)
 Definition cls_startb (n : list byte) : bool :=
-  match n with c :: _ => is_upper c || is_digit c | [] => true end.
+  match n with c :: _ => is_upper c || is_digit c | [] => false end.
 
 Lemma seg_not_cls x n : seg_okb x = true -> cls_startb n = true -> bytes_eqb x n = false.
 Proof.
